@@ -6,7 +6,7 @@ def run(chk, replay=None):
     chk.rule = ("cases = (a) TLC -simulate behaviours of spec/GenFQ.tla, seeded starvation and random scripts replayed on the real fair queue; "
                 "(b) every receive schedule of length D over {attach, attach+first message, send, half-send, finish, close, recv, poll, drop, quiescent} "
                 "enumerated by TLC (spec/GenDelivery.tla) and seeded random schedules with multi-frame/boundary-size messages and random segmentation, "
-                "executed on real PULL/SUB/DEALER/ROUTER/REP/XPUB sockets over in-memory pipes; every recorded trace validated by TLC against the "
+                "executed on real PULL/SUB/DEALER/ROUTER/REP/XPUB sockets over in-memory pipes; (c) uncontrolled schedules: raw clients flooding each socket type over real TCP / IPC from their own tasks on a multi-threaded runtime; every recorded trace validated by TLC against the "
                 "layer-A monitors; distinct = distinct scripts; non-trivial = contains a receiver poll")
     chk.assumptions = ["TLC and CommunityModules are correct", "harness pipes deliver bytes in order and wake the registered waker", "message payloads carry unique tags so attribution to a connection is unambiguous"]
     if replay:
@@ -25,3 +25,4 @@ def run(chk, replay=None):
     fqlib.run_fq(chk, ("C05/",), nsim=3000 if thorough else 300, nstarve=100 if thorough else 20, nrand=2000 if thorough else 300)
     dlvlib.socket_level(chk, ("C05/",), types=(["PULL", "ROUTER", "REP", "DEALER", "SUB", "XPUB"] if thorough else ["PULL", "ROUTER"]),
                         depth=6 if thorough else 5, nrand=1500 if thorough else 150)
+    dlvlib.flood(chk, ("C05/",), nper=12 if thorough else 2, clients=6 if thorough else 4, msgs=300 if thorough else 60)
